@@ -29,7 +29,18 @@ def one(sid):
         res = json.loads(p.stdout[p.stdout.index("{"):])
     except Exception:
         res = {"error": (p.stdout + p.stderr)[-800:]}
+    record(sid, prop, meta, res)
     return sid, prop, meta, res
+
+
+def record(sid, prop, meta, res):
+    c = (res.get("checks") or {}).get(prop, {})
+    caught = c.get("rc") == 1
+    meta["latest_run"] = {"tier": tier, "suite": res.get("suite"), "demo_clean_rc": res.get("demo_clean_rc"),
+                          "demo_mutant_rc": res.get("demo_mutant_rc"), "check_rc": c.get("rc"), "caught": caught,
+                          "lines": c.get("lines"), "wall": c.get("wall"), "error": res.get("error"), "dist": c.get("dist")}
+    json.dump(meta, open(os.path.join(ROOT, "seeded", sid, "meta.json"), "w"), indent=1)
+    print(sid, "CAUGHT" if caught else "missed", "rc=%s" % c.get("rc"), "suite=%s" % res.get("suite"), "demo=%s/%s" % (res.get("demo_clean_rc"), res.get("demo_mutant_rc")), (c.get("lines") or [""])[0][:140], flush=True)
 
 
 serial = [s for s in ids if s.startswith("C18")]
@@ -39,11 +50,3 @@ with ThreadPoolExecutor(max_workers=jobs) as ex:
     results += list(ex.map(one, par))
 for s in serial:
     results.append(one(s))
-for sid, prop, meta, res in sorted(results):
-    c = (res.get("checks") or {}).get(prop, {})
-    caught = c.get("rc") == 1
-    meta["latest_run"] = {"tier": tier, "suite": res.get("suite"), "demo_clean_rc": res.get("demo_clean_rc"),
-                          "demo_mutant_rc": res.get("demo_mutant_rc"), "check_rc": c.get("rc"), "caught": caught,
-                          "lines": c.get("lines"), "wall": c.get("wall"), "error": res.get("error"), "dist": c.get("dist")}
-    json.dump(meta, open(os.path.join(ROOT, "seeded", sid, "meta.json"), "w"), indent=1)
-    print(sid, "CAUGHT" if caught else "missed", "rc=%s" % c.get("rc"), "suite=%s" % res.get("suite"), "demo=%s/%s" % (res.get("demo_clean_rc"), res.get("demo_mutant_rc")), (c.get("lines") or [""])[0][:140])
